@@ -1603,6 +1603,14 @@ func (p *pkgInfo) emitBuildResetFact(o *out) {
 					bodies = append(bodies, callee.Body)
 				}
 			}
+			// … or in a helper METHOD of the builder (p.sortAndMerge())
+			if sel, ok := c.Fun.(*ast.SelectorExpr); ok {
+				if id, ok := sel.X.(*ast.Ident); ok && id.Name == recv {
+					if callee, ok := p.funcs["PositionsBuilder."+sel.Sel.Name]; ok && callee.Body != nil && callee != fd {
+						bodies = append(bodies, callee.Body)
+					}
+				}
+			}
 		}
 		return true
 	})
